@@ -8,6 +8,17 @@ iteration inputs (`runLoop`); `Spec/WsApp.lean` states the property as predicate
 A "dispatch" is the submission of a handler call to the handler pool, which dequeues in FIFO order (C08,
 `fifo_dequeue`); with one handler thread dispatch order is execution order.
 
+The three handlers are optional (`Handlers`: which of `on_connect` / `on_message` / `on_disconnect` are
+registered). EVERY theorem below is stated and proved for an arbitrary configuration `h : Handlers`:
+* the statements about dispatches speak of the registered handlers (`connect_once_before_messages`,
+  `message_once_in_order`, `disconnect_once_then_silence`: the full statement when the handler is registered, no
+  dispatch of that kind at all when it is not);
+* the statements about removal, silence after removal, polling, sends and pings make no assumption on `h`
+  (`removed_once_then_silence`, `closed_client_not_polled_again`, `never_admitted_silent`,
+  `unicast_only_addressee`, `broadcast_each_connected_once`, `shutdown_returns`, `no_panic`): a client that closes /
+  breaks / times out leaves the table exactly once — effect `drop`, `self.streams.remove(&addr)` — and is never
+  polled, dispatched for, written to or pinged again, whether or not anybody is told about it.
+
 Hypotheses of the run theorems:
 * `s.phase = .running` — the loop has not been left yet;
 * `RunOk s is` — every executed iteration's input is consistent with the table at that moment (`InputsOk`: the
@@ -26,10 +37,11 @@ namespace Humphrey.Props.C12
 open Humphrey.WsApp Humphrey.WsAppSpec
 
 /-- `get_mut(&addr).unwrap()` never panics on consistent inputs. -/
-theorem no_panic (s : AppState) (is : List IterInput) (hp : s.phase = .running) (hok : RunOk s is = true) :
-    Effect.panic ∉ (runLoop s is).2 := by
+theorem no_panic (h : Handlers) (s : AppState) (is : List IterInput) (hp : s.phase = .running)
+    (hok : RunOk h s is = true) :
+    Effect.panic ∉ (runLoop h s is).2 := by
   rw [run_trace hp hok]
-  have hok' := (runOk_iff is s hp).1 hok
+  have hok' := (runOk_iff h is s hp).1 hok
   clear hok
   generalize s.streams = st at hok'
   induction is generalizing st with
@@ -39,78 +51,114 @@ theorem no_panic (s : AppState) (is : List IterInput) (hp : s.phase = .running) 
     · obtain ⟨_, hmem, hnext⟩ := runOk'_cons hs hok'
       simp only [runEffects, hs, Bool.false_eq_true, if_false, List.mem_append, not_or]
       refine ⟨?_, ih _ hnext⟩
-      intro h
-      obtain ⟨b, hb, _⟩ := addr_iterEffects hmem h
+      intro hx
+      obtain ⟨b, hb, _⟩ := addr_iterEffects hmem hx
       simp [addrOf] at hb
     · simp [runEffects, hs]
 
-/-- **Connect exactly once, before any of the client's messages.** For every client admitted in the run the
-connect handler is dispatched exactly once, and no message of that client is dispatched before it. A client
-that is never admitted gets no connect dispatch. -/
-theorem connect_once_before_messages (s : AppState) (is : List IterInput) (hp : s.phase = .running)
-    (hok : RunOk s is = true) (hd : DistinctPeers s is) (a : Addr) :
-    (a ∈ admitted is → ConnectOnceBeforeMessages a (runLoop s is).2) ∧
-    (a ∉ admitted is → (runLoop s is).2.count (.dispatchConnect a) = 0) := by
+/-- **Connect exactly once, before any of the client's messages** (app with a connect handler). For every
+client admitted in the run the connect handler is dispatched exactly once, and no message of that client is
+dispatched before it. A client that is never admitted gets no connect dispatch; an app without a connect handler
+dispatches none at all. -/
+theorem connect_once_before_messages (h : Handlers) (s : AppState) (is : List IterInput)
+    (hp : s.phase = .running) (hok : RunOk h s is = true) (hd : DistinctPeers s is) (a : Addr) :
+    (h.connect = true → a ∈ admitted is → ConnectOnceBeforeMessages a (runLoop h s is).2) ∧
+    ((h.connect = false ∨ a ∉ admitted is) → (runLoop h s is).2.count (.dispatchConnect a) = 0) := by
   rw [run_trace hp hok]
-  have hok' := (runOk_iff is s hp).1 hok
-  have hsub : (admitted is).Sublist (allIncoming is) := by
-    unfold admitted allIncoming
-    clear hok hd hok'
-    induction is with
-    | nil => simp [executed]
-    | cons i is ih =>
-      cases hs : i.shutdown
-      · simp only [executed, hs, Bool.false_eq_true, if_false, List.flatMap_cons]
-        exact List.Sublist.append (List.Sublist.refl _) ih
-      · simp [executed, hs]
+  have hok' := (runOk_iff h is s hp).1 hok
+  have hsub := admitted_sublist is
   have hnd : (allIncoming is).Nodup := ((List.nodup_append.1 hd).2.1)
   constructor
-  · intro ha
+  · intro hc ha
     refine ⟨?_, ?_⟩
-    · rw [count_connect_runEffects, (List.Nodup.sublist hsub hnd).count, if_pos ha]
+    · rw [count_connect_runEffects, if_pos hc, (List.Nodup.sublist hsub hnd).count, if_pos ha]
     · have hnot : a ∉ s.streams := by
-        intro h
-        exact (List.nodup_append.1 hd).2.2 a h a (hsub.subset ha) rfl
-      exact before_runEffects a is s.streams hnot hok'
+        intro hin
+        exact (List.nodup_append.1 hd).2.2 a hin a (hsub.subset ha) rfl
+      exact before_runEffects hc a is s.streams hnot hok'
   · intro ha
     rw [count_connect_runEffects]
-    exact List.count_eq_zero_of_not_mem ha
+    rcases ha with hc | ha
+    · simp [hc]
+    · split
+      · exact List.count_eq_zero_of_not_mem ha
+      · rfl
 
-/-- **Each message exactly once, in per-client order.** The messages dispatched for client `a` are the
-messages received from `a`, in the order received (no address hypothesis is needed for this one). -/
-theorem message_once_in_order (s : AppState) (is : List IterInput) (hp : s.phase = .running)
-    (hok : RunOk s is = true) (a : Addr) :
-    MessagesOnceInOrder a is (runLoop s is).2 := by
+/-- **Each message exactly once, in per-client order** (app with a message handler). The messages dispatched for
+client `a` are the messages received from `a`, in the order received (no address hypothesis is needed for this
+one). An app without a message handler dispatches none (it still receives them: see `removed_once_then_silence`
+and the model, where the receive results drive the same state changes). -/
+theorem message_once_in_order (h : Handlers) (s : AppState) (is : List IterInput) (hp : s.phase = .running)
+    (hok : RunOk h s is = true) (a : Addr) :
+    (h.message = true → MessagesOnceInOrder a is (runLoop h s is).2) ∧
+    (h.message = false → (runLoop h s is).2.filterMap (msgOf a) = []) := by
   unfold MessagesOnceInOrder
-  rw [run_trace hp hok]
-  exact messages_runEffects a is s.streams
+  rw [run_trace hp hok, messages_runEffects h a is s.streams]
+  constructor <;> intro hm <;> simp [hm]
 
-/-- **Disconnect exactly once, then silence.** A client is found closed, broken or timed out at most once; if
-it is, the disconnect handler is dispatched exactly once and afterwards nothing is dispatched for it, sent to
-it or pinged; if it is not, the disconnect handler is never dispatched for it. -/
-theorem disconnect_once_then_silence (s : AppState) (is : List IterInput) (hp : s.phase = .running)
-    (hok : RunOk s is = true) (hd : DistinctPeers s is) (a : Addr) :
+/-- **Removed exactly once, then silence — for EVERY configuration of handlers.** A client is found closed,
+broken or timed out at most once; if it is, its stream is removed from the table (and dropped) exactly once and
+afterwards nothing is dispatched for it, sent to it or pinged; if it is not, its stream is never removed. Nothing
+here depends on a disconnect handler being registered. -/
+theorem removed_once_then_silence (h : Handlers) (s : AppState) (is : List IterInput) (hp : s.phase = .running)
+    (hok : RunOk h s is = true) (hd : DistinctPeers s is) (a : Addr) :
     closings a is ≤ 1 ∧
-    (closings a is = 1 → DisconnectOnceThenSilence a (runLoop s is).2) ∧
-    (closings a is = 0 → (runLoop s is).2.count (.dispatchDisconnect a) = 0) := by
+    (closings a is = 1 → RemovedOnceThenSilence a (runLoop h s is).2) ∧
+    (closings a is = 0 → (runLoop h s is).2.count (.drop a) = 0) := by
   rw [run_trace hp hok]
-  have hok' := (runOk_iff is s hp).1 hok
+  have hok' := (runOk_iff h is s hp).1 hok
   refine ⟨(closings_le_one a is s.streams hok' hd).1, ?_, ?_⟩
-  · intro h
-    exact ⟨by rw [count_dd_runEffects, h], (silence_runEffects a is s.streams hok' hd).1⟩
-  · intro h
-    rw [count_dd_runEffects, h]
+  · intro hc
+    exact ⟨by rw [count_drop_runEffects, hc], (silence_runEffects h a is s.streams hok' hd).1⟩
+  · intro hc
+    rw [count_drop_runEffects, hc]
 
-/-- **A unicast reaches only its addressee.** In any iteration from any table, the effects of flushing a
-unicast to `a` (pinned down as what lies between the trace of the same iteration with the flush stopped before
-that message and the flush of the remaining messages) are: exactly one `sendTo a` of the message's frame when
-`a` is connected at that moment, nothing when it is not (unknown or already disconnected address), and never
-anything for anybody else. -/
-theorem unicast_only_addressee (s : AppState) (i : IterInput) (hs : i.shutdown = false)
+/-- **Once found closed, never polled again — for EVERY configuration.** After the iteration whose poll finds
+the client closed, broken or timed out, no later iteration polls it: it has left the table (`RunOk`: the streams
+polled are exactly the keys of the table). -/
+theorem closed_client_not_polled_again (h : Handlers) (s : AppState) (is : List IterInput)
+    (hp : s.phase = .running) (hok : RunOk h s is = true) (hd : DistinctPeers s is) (a : Addr) :
+    notPolledAfterClose a (executed is) = true :=
+  notPolled_run a is s.streams ((runOk_iff h is s hp).1 hok) hd
+
+/-- **Disconnect exactly once, then silence** (app with a disconnect handler). If the client is found closed,
+broken or timed out, the disconnect handler is dispatched exactly once and afterwards nothing is dispatched for
+it, sent to it or pinged (what follows for it is its removal). If it is not, or if there is no disconnect
+handler, the disconnect handler is never dispatched for it. -/
+theorem disconnect_once_then_silence (h : Handlers) (s : AppState) (is : List IterInput)
+    (hp : s.phase = .running) (hok : RunOk h s is = true) (hd : DistinctPeers s is) (a : Addr) :
+    (h.disconnect = true → closings a is = 1 → DisconnectOnceThenSilence a (runLoop h s is).2) ∧
+    ((h.disconnect = false ∨ closings a is = 0) → (runLoop h s is).2.count (.dispatchDisconnect a) = 0) := by
+  rw [run_trace hp hok]
+  have hok' := (runOk_iff h is s hp).1 hok
+  constructor
+  · intro hdh hc
+    exact ⟨by rw [count_dd_runEffects, if_pos hdh, hc], (silence_runEffects h a is s.streams hok' hd).2.1 hdh⟩
+  · intro hc
+    rw [count_dd_runEffects]
+    rcases hc with hc | hc
+    · simp [hc]
+    · simp [hc]
+
+/-- **Nothing for a client that never connected — for EVERY configuration.** An address that is not in the table
+at the start and is not admitted during the run gets no dispatch, no send, no ping and no removal. -/
+theorem never_admitted_silent (h : Handlers) (s : AppState) (is : List IterInput) (hp : s.phase = .running)
+    (hok : RunOk h s is = true) (a : Addr) (h1 : a ∉ s.streams) (h2 : a ∉ admitted is) :
+    Silent a (runLoop h s is).2 := by
+  unfold Silent
+  rw [run_trace hp hok]
+  exact stranger_silent h a is s.streams h1 h2 ((runOk_iff h is s hp).1 hok)
+
+/-- **A unicast reaches only its addressee — for EVERY configuration.** In any iteration from any table, the
+effects of flushing a unicast to `a` (pinned down as what lies between the trace of the same iteration with the
+flush stopped before that message and the flush of the remaining messages) are: exactly one `sendTo a` of the
+message's frame when `a` is connected at that moment, nothing when it is not (unknown or already disconnected
+address), and never anything for anybody else. -/
+theorem unicast_only_addressee (h : Handlers) (s : AppState) (i : IterInput) (hs : i.shutdown = false)
     (hok : InputsOk s i = true) (a : Addr) (m : Msg) (o1 o2 : List Out)
     (hout : i.outgoing = o1 ++ .unicast a m :: o2) :
-    ∃ seg, (stepLoop s i).2 =
-        (stepLoop s { i with outgoing := o1 }).2 ++ seg ++ flush (stepLoop s i).1.streams o2 ∧
+    ∃ seg, (stepLoop h s i).2 =
+        (stepLoop h s { i with outgoing := o1 }).2 ++ seg ++ flush (stepLoop h s i).1.streams o2 ∧
       UnicastOk (liveAtFlush s.streams i) a m seg := by
   have hok1 : InputsOk s { i with outgoing := o1 } = true := hok
   refine ⟨deliver (nextStreams s.streams i) (.unicast a m), ?_, ?_⟩
@@ -119,16 +167,17 @@ theorem unicast_only_addressee (s : AppState) (i : IterInput) (hs : i.shutdown =
     rfl
   · rw [deliver_unicast]
     unfold UnicastOk
-    by_cases h : a ∈ nextStreams s.streams i
-    · simp [h, mem_liveAtFlush]
-    · simp [h, mem_liveAtFlush]
+    by_cases hm : a ∈ nextStreams s.streams i
+    · simp [hm, mem_liveAtFlush]
+    · simp [hm, mem_liveAtFlush]
 
-/-- **A broadcast reaches every client connected at that moment exactly once, and nobody else.** -/
-theorem broadcast_each_connected_once (s : AppState) (i : IterInput) (hn : s.streams.Nodup)
+/-- **A broadcast reaches every client connected at that moment exactly once, and nobody else — for EVERY
+configuration.** -/
+theorem broadcast_each_connected_once (h : Handlers) (s : AppState) (i : IterInput) (hn : s.streams.Nodup)
     (hs : i.shutdown = false) (hok : InputsOk s i = true) (m : Msg) (order : List Addr) (o1 o2 : List Out)
     (hout : i.outgoing = o1 ++ .broadcast m order :: o2) :
-    ∃ seg, (stepLoop s i).2 =
-        (stepLoop s { i with outgoing := o1 }).2 ++ seg ++ flush (stepLoop s i).1.streams o2 ∧
+    ∃ seg, (stepLoop h s i).2 =
+        (stepLoop h s { i with outgoing := o1 }).2 ++ seg ++ flush (stepLoop h s i).1.streams o2 ∧
       BroadcastOk (liveAtFlush s.streams i) m seg := by
   have hok1 : InputsOk s { i with outgoing := o1 } = true := hok
   refine ⟨deliver (nextStreams s.streams i) (.broadcast m order), ?_, ?_⟩
@@ -144,11 +193,13 @@ theorem broadcast_each_connected_once (s : AppState) (i : IterInput) (hn : s.str
 
 /-- The two flush theorems speak about every iteration of every run: a run's trace is the concatenation of
 its iterations' traces, each taken from the table the run has reached, and that table has no address twice. -/
-theorem run_decomposes (s : AppState) (pre : List IterInput) (i : IterInput) (post : List IterInput)
-    (hp : s.phase = .running) (hn : s.streams.Nodup) (hok : RunOk s (pre ++ i :: post) = true)
+theorem run_decomposes (h : Handlers) (s : AppState) (pre : List IterInput) (i : IterInput)
+    (post : List IterInput)
+    (hp : s.phase = .running) (hn : s.streams.Nodup) (hok : RunOk h s (pre ++ i :: post) = true)
     (hpre : ∀ j ∈ pre, j.shutdown = false) :
-    let sk := (runLoop s pre).1
-    (runLoop s (pre ++ i :: post)).2 = (runLoop s pre).2 ++ (stepLoop sk i).2 ++ (runLoop (stepLoop sk i).1 post).2 ∧
+    let sk := (runLoop h s pre).1
+    (runLoop h s (pre ++ i :: post)).2 =
+      (runLoop h s pre).2 ++ (stepLoop h sk i).2 ++ (runLoop h (stepLoop h sk i).1 post).2 ∧
     sk.phase = .running ∧ sk.streams.Nodup ∧ InputsOk sk i = true := by
   induction pre generalizing s with
   | nil =>
@@ -158,7 +209,7 @@ theorem run_decomposes (s : AppState) (pre : List IterInput) (i : IterInput) (po
   | cons j pre ih =>
     have hj : j.shutdown = false := hpre j (by simp)
     simp only [List.cons_append, RunOk, hp, bne_self_eq_false, Bool.false_or, Bool.and_eq_true] at hok
-    have hstep := stepLoop_eq hj hok.1
+    have hstep := stepLoop_eq (h := h) hj hok.1
     have hok2 := hok.2
     rw [hstep] at hok2
     have := ih { streams := nextStreams s.streams j, phase := .running } rfl (nodup_nextStreams j hn) hok2
@@ -166,16 +217,17 @@ theorem run_decomposes (s : AppState) (pre : List IterInput) (i : IterInput) (po
     simp only [List.cons_append, runLoop, hp, if_true, hstep, List.append_assoc] at this ⊢
     exact ⟨by rw [this.1], this.2⟩
 
-/-- **A shutdown signal makes `run` return.** The loop is left at the first iteration whose input has the
-flag: the trace is the trace of the iterations before it followed by `exit`, which is its only `exit`; nothing
-of the later inputs is looked at. -/
-theorem shutdown_returns (s : AppState) (pre : List IterInput) (i : IterInput) (post : List IterInput)
-    (hp : s.phase = .running) (hok : RunOk s (pre ++ i :: post) = true)
+/-- **A shutdown signal makes `run` return — for EVERY configuration.** The loop is left at the first iteration
+whose input has the flag: the trace is the trace of the iterations before it followed by `exit`, which is its
+only `exit`; nothing of the later inputs is looked at. -/
+theorem shutdown_returns (h : Handlers) (s : AppState) (pre : List IterInput) (i : IterInput)
+    (post : List IterInput)
+    (hp : s.phase = .running) (hok : RunOk h s (pre ++ i :: post) = true)
     (hpre : ∀ j ∈ pre, j.shutdown = false) (hi : i.shutdown = true) :
-    (runLoop s (pre ++ i :: post)).2 = (runLoop s pre).2 ++ [.exit] ∧
-    ExitsLast (runLoop s (pre ++ i :: post)).2 ∧
-    (runLoop s (pre ++ i :: post)).1.phase = .exited := by
-  have hok' := (runOk_iff _ s hp).1 hok
+    (runLoop h s (pre ++ i :: post)).2 = (runLoop h s pre).2 ++ [.exit] ∧
+    ExitsLast (runLoop h s (pre ++ i :: post)).2 ∧
+    (runLoop h s (pre ++ i :: post)).1.phase = .exited := by
+  have hok' := (runOk_iff h _ s hp).1 hok
   have hokpre : RunOk' s.streams pre := by
     clear hok
     generalize s.streams = st at hok'
@@ -185,13 +237,13 @@ theorem shutdown_returns (s : AppState) (pre : List IterInput) (i : IterInput) (
       have hj : j.shutdown = false := hpre j (by simp)
       simp only [List.cons_append, RunOk', hj, Bool.false_eq_true, false_or] at hok' ⊢
       exact ⟨hok'.1, ih (fun k hk => hpre k (by simp [hk])) _ hok'.2⟩
-  have hpreT : (runLoop s pre).2 = runEffects s.streams pre := runLoop_eq pre s hp hokpre
-  have hT : (runLoop s (pre ++ i :: post)).2 = runEffects s.streams pre ++ [.exit] := by
-    rw [run_trace hp hok, runEffects_shutdown pre i post _ hpre hi]
+  have hpreT : (runLoop h s pre).2 = runEffects h s.streams pre := runLoop_eq h pre s hp hokpre
+  have hT : (runLoop h s (pre ++ i :: post)).2 = runEffects h s.streams pre ++ [.exit] := by
+    rw [run_trace hp hok, runEffects_shutdown h pre i post _ hpre hi]
   refine ⟨by rw [hT, hpreT], ?_, ?_⟩
   · rw [hT]
     refine ⟨by simp, ?_⟩
-    rw [List.count_append, List.count_eq_zero_of_not_mem (exit_not_mem_runEffects pre _ hpre hokpre)]
+    rw [List.count_append, List.count_eq_zero_of_not_mem (exit_not_mem_runEffects h pre _ hpre hokpre)]
     rfl
   · clear hok' hokpre hpreT hT
     induction pre generalizing s with
@@ -200,7 +252,7 @@ theorem shutdown_returns (s : AppState) (pre : List IterInput) (i : IterInput) (
       have hj : j.shutdown = false := hpre j (by simp)
       simp only [List.cons_append, RunOk, hp, bne_self_eq_false, Bool.false_or, Bool.and_eq_true] at hok
       simp only [List.cons_append, runLoop, hp, if_true]
-      have hstep := stepLoop_eq hj hok.1
+      have hstep := stepLoop_eq (h := h) hj hok.1
       have hok2 := hok.2
       rw [hstep] at hok2 ⊢
       exact ih _ rfl hok2 (fun k hk => hpre k (by simp [hk]))
@@ -217,23 +269,52 @@ def demoInputs : List IterInput :=
     { incoming := [4] } ]
 
 /-- `InputsOk` (along a run) and `DistinctPeers` are satisfiable, by a run with two clients that connect, send,
-are closed (one by `Err`, one by timeout), a third that stays, unicasts, broadcasts and a shutdown. -/
-example : RunOk {} demoInputs = true ∧ DistinctPeers {} demoInputs := by decide
+are closed (one by `Err`, one by timeout), a third that stays, unicasts, broadcasts and a shutdown — with all
+handlers, with none, and with a message handler only. -/
+example : RunOk {} {} demoInputs = true ∧ DistinctPeers {} demoInputs := by decide
+example : RunOk ⟨false, false, false⟩ {} demoInputs = true := by decide
+example : RunOk ⟨false, true, false⟩ {} demoInputs = true := by decide
 
 example : InputsOk { streams := [5, 6] } { polls := [⟨6, [.err], false⟩, ⟨5, [.msg ⟨true, []⟩, .none], true⟩] } = true := by
   decide
 
-/-- The trace of that run. -/
-example : ((runLoop {} demoInputs).2.map fun e => match e with
-    | .sendTo a _ => Effect.sendTo a [] | e => e) =
+def blank : Effect → Effect
+  | .sendTo a _ => .sendTo a []
+  | e => e
+
+/-- The trace of that run with all three handlers. -/
+example : (runLoop {} {} demoInputs).2.map blank =
   [ .dispatchConnect 1, .dispatchConnect 2,
     .dispatchMessage 2 ⟨true, [104]⟩, .dispatchMessage 2 ⟨false, []⟩, .ping 2, .ping 1,
     .sendTo 2 [], .sendTo 2 [], .sendTo 1 [],
-    .dispatchMessage 1 ⟨true, [1]⟩, .dispatchDisconnect 1, .dispatchDisconnect 2, .dispatchConnect 3,
+    .dispatchMessage 1 ⟨true, [1]⟩, .dispatchDisconnect 1, .drop 1, .dispatchDisconnect 2, .drop 2,
+    .dispatchConnect 3,
     .sendTo 3 [], .exit ] := by decide
 
+/-- The same run without any handler: the same pings, sends and removals, no dispatch; the same tables. -/
+example : (runLoop ⟨false, false, false⟩ {} demoInputs).2.map blank =
+  [ .ping 2, .ping 1, .sendTo 2 [], .sendTo 2 [], .sendTo 1 [], .drop 1, .drop 2, .sendTo 3 [], .exit ] ∧
+  (runLoop ⟨false, false, false⟩ {} demoInputs).1 = (runLoop {} {} demoInputs).1 := by decide
+
+/-- With a message handler only (the configuration of the missed change): messages are dispatched, the two
+closed clients are removed without a disconnect dispatch, the later unicast to client 1 reaches nobody. -/
+example : (runLoop ⟨false, true, false⟩ {} demoInputs).2.map blank =
+  [ .dispatchMessage 2 ⟨true, [104]⟩, .dispatchMessage 2 ⟨false, []⟩, .ping 2, .ping 1,
+    .sendTo 2 [], .sendTo 2 [], .sendTo 1 [],
+    .dispatchMessage 1 ⟨true, [1]⟩, .drop 1, .drop 2, .sendTo 3 [], .exit ] := by decide
+
+/-- `closings … = 1` is satisfiable (clients 1 and 2 of the demo run), so the removal theorem is not vacuous. -/
+example : closings 1 demoInputs = 1 ∧ closings 2 demoInputs = 1 ∧ closings 3 demoInputs = 0 := by decide
+
+/-- What the removal clause rejects: a trace in which the closed client stays in the table and is written to
+again (the shape a loop produces that forgets `streams.remove` when no disconnect handler is registered). -/
+example : ¬ RemovedOnceThenSilence 1 [.dispatchMessage 1 ⟨true, [1]⟩, .sendTo 1 [], .exit] := by decide
+example : ¬ RemovedOnceThenSilence 1 [.drop 1, .sendTo 1 [], .exit] := by decide
+example : notPolledAfterClose 1 [{ polls := [⟨1, [.err], false⟩] }, { polls := [⟨1, [.none], false⟩] }] = false := by
+  decide
+
 /-- Without `DistinctPeers` the connect statement fails: an address admitted twice gets two connect dispatches. -/
-example : (runLoop {} [{ incoming := [1] }, { polls := [⟨1, [.err], false⟩] }, { incoming := [1] }]).2.count
+example : (runLoop {} {} [{ incoming := [1] }, { polls := [⟨1, [.err], false⟩] }, { incoming := [1] }]).2.count
     (.dispatchConnect 1) = 2 := by decide
 
 end Humphrey.Props.C12
